@@ -1161,6 +1161,11 @@ def _gen_program(self: Gen, root=None):
         cin = [(self.wire(), t) for t in f["ins"]]
         if f.get("poly") == "type":
             body = self.region(cin, [], 1, required=f["outs"], nstmts=rng.randint(0, 2))
+            if body is None:      # the required outputs cannot be produced: keep it as a declaration
+                f["decl"] = True
+                out.append(f)
+                self.funcs.append(f)
+                continue
         else:
             body = self.region(cin, [], 1)
             f["outs"] = body["out_tys"]
